@@ -6,6 +6,7 @@
 //!   the image joins at position n0 * tlen + off0 (subscriber position counter 2 of the client's counter values buffer)
 //!   the assembler's initial buffer length is the default, except 64 when (n0 + off0 + tlen) % 3 == 0 (growth exercised)
 //!   ops:  o <k> <len>   offer message k = vcommon::payload(k, len) through offer_opt with the harness reserved-value supplier
+//!         b <k> <l1> <l2> ..  the same through offer_bulk with buffers of l1, l2, .. bytes (shared publication)
 //!         c <len>       try_claim(len) on the one BufferClaim of the history
 //!         m <k>         write vcommon::payload(k, claim.length()) into the claimed range, then commit()
 //!         a             abort()
@@ -147,6 +148,30 @@ fn run_history(spec: &str) -> String {
                 match &mut p {
                     Pubn::S(p) => fmt_result(catch(|| p.offer_opt(buf, 0, len, harness_rv))),
                     Pubn::X(p) => fmt_result(catch(|| p.offer_opt(buf, 0, len, harness_rv))),
+                }
+            }
+            // b <k> <l1> <l2> ...: the same message k of l1 + l2 + ... bytes offered as a list of buffers (shared publication:
+            // offer_bulk; the exclusive publication has no vectored offer and gets the contiguous one). By C18 this is the
+            // offer of the concatenation, and that is what the model is given.
+            "b" => {
+                let total: i64 = a[1..].iter().sum();
+                let whole = payload(a[0], total.max(0) as usize);
+                let mut parts: Vec<Vec<u8>> = Vec::new();
+                let mut at = 0usize;
+                for l in &a[1..] {
+                    parts.push(whole[at..at + *l as usize].to_vec());
+                    at += *l as usize;
+                }
+                match &mut p {
+                    Pubn::S(p) => {
+                        let bufs: Vec<AtomicBuffer> = parts.iter_mut().map(|v| AtomicBuffer::wrap_slice(v)).collect();
+                        fmt_result(catch(|| p.offer_bulk(bufs, harness_rv)))
+                    }
+                    Pubn::X(p) => {
+                        let mut bytes = whole.clone();
+                        let buf = AtomicBuffer::wrap_slice(&mut bytes);
+                        fmt_result(catch(|| p.offer_opt(buf, 0, total as Index, harness_rv)))
+                    }
                 }
             }
             "c" => {
